@@ -27,9 +27,9 @@ from fractions import Fraction as Fr
 from .. import core, gen
 
 # ---------------------------------------------------------------------------------------------------------
-# |LATT| values the generator draws settings from.  The library's operator list is incomplete for centred
-# lattices (property C11, repaired separately); add 2..7 here to switch the centred settings below on.
-LATTICE_TYPES = (1,)
+# |LATT| values the generator draws settings from (P, I, R, F, A, B, C).  Centred lattices are on since the C11
+# repair (complete operator list); restrict this tuple to (1,) to go back to primitive settings only.
+LATTICE_TYPES = (1, 2, 3, 4, 5, 6, 7)
 # ---------------------------------------------------------------------------------------------------------
 
 SETTINGS = [
@@ -260,6 +260,10 @@ def analyse(case):
             borderline.append('bond-limit')
         if (compatible(asu[i], asu[j]) or asu[i]['part'] == asu[j]['part']) and d < 0.6 and (i != j or d > 1e-4):
             borderline.append('too-close')
+        if asu[i]['el'] == 'H' and asu[j]['el'] == 'H' and 1e-4 < d < 1.2:
+            # the library calls H...H below 1.08 A covalent (one molecule number) although it never grows through it;
+            # such a clash is unphysical, keep generated structures away from it
+            borderline.append('hh-clash')
     # fragments = connected components of the bond graph of the asymmetric unit (identity, no translation)
     comp = {i: i for i in real}
 
@@ -399,11 +403,16 @@ def build_fragment(rng, nheavy, with_h):
 
 def make_case(rng, profile=None):
     settings = [s for s in SETTINGS if abs(s[1]) in LATTICE_TYPES]
+    profile = profile or rng.choices(['normal', 'many', 'negpart', 'onsite'], [10, 2, 2, 3])[0]
+    if profile == 'many':
+        # 7-9 fragments need room: few operators, a cell 1.8 times as long (otherwise nearly every draw clashes)
+        settings = [s for s in settings if len(full_group(s[1], s[2])) <= 8]
     sg, latt, symm, kind = rng.choice(settings)
     cell = rand_cell(rng, kind)
+    if profile == 'many':
+        cell = [round(1.8 * v, 3) for v in cell[:3]] + cell[3:]
     ops = full_group(latt, symm)
     Oinv = inv3(ortho(cell))
-    profile = profile or rng.choices(['normal', 'many', 'negpart', 'onsite'], [10, 2, 2, 3])[0]
     nfrag = rng.choice([1, 1, 2, 2, 3]) if profile != 'many' else rng.randint(7, 9)
     atoms = []
     used = set()
@@ -486,7 +495,7 @@ def make_case(rng, profile=None):
 
 def good_case(rng, profile=None):
     """generated case whose decisive distances stay clear of every threshold"""
-    for _ in range(60):
+    for _ in range(60 if profile != 'many' else 12):
         case = make_case(rng, profile)
         if any(abs(v) > 3.5 for a in case['atoms'] for v in a['xyz']):
             continue
@@ -802,10 +811,10 @@ def run(ctx):
                        'the thresholds (bond limit, d_min + 0.2, 0.2 A)',
                        'bonding rule = the library\'s: d < 1.2 (r1 + r2), PARTs equal or one of them 0, never H...H; Q-peaks never bond',
                        'the SDM items and molecule numbers handed to the model are the implementation\'s own (their correctness is C13)',
-                       f'lattice types generated: {list(LATTICE_TYPES)} (centred settings are switched off until C11 is repaired)']
+                       f'lattice types generated: {list(LATTICE_TYPES)}']
     ctx.extra['lattice_types'] = list(LATTICE_TYPES)
     cases = fixed_cases()
-    n = ctx.budget(140, 1800)
+    n = ctx.budget(260, 2500)
     profiles = [None] * 8 + ['many', 'negpart', 'onsite']
     k = 0
     while len(cases) < n + 7 and k < 3 * n:
